@@ -12,11 +12,11 @@ set_option maxHeartbeats 1600000 in
 /-- **`__step(dt)`**, for a `dt` that does not overshoot any RUNNING task. `T` is the time of
 the event at the root of the queue (if any): afterwards the root is that event or a
 TASK_FINISHED event due at the new clock value. -/
-theorem step_spec (n dt : Int) (T : Option Int) :
+theorem step_rspec (n dt : Int) (T : Option Int) :
     ⦃fun s => ⌜(AP RunOK [] s ∧ s.now = n) ∧ DtOK s dt ∧ (s.queue[0]?).map (·.ev.time) = T⌝⦄ step dt
     ⦃post⟨fun _ s' => ⌜(AP RunOK [] s' ∧ s'.now = n + dt) ∧
         ∀ h1, s'.queue[0]? = some h1 → some h1.ev.time = T ∨ h1.ev.time = n + dt⌝, fun _ s => ⌜WInv s⌝⟩⦄ := by
-  mvcgen [step, getPool, setPool, getTask, getGraph, taskCall, setGraph, raiseTask, mkEvent, uniqueName, advanceClock, addEvent]
+  rmvcgen [step, getPool, setPool, getTask, getGraph, taskCall, setGraph, raiseTask, mkEvent, uniqueName, advanceClock, addEvent]
   case inv1 =>
     rename_i s0 _ _ _
     exact post⟨fun p s => ⌜Inv1 n dt s0 p.1.prefix p.2 s⌝, fun _ s => ⌜WInv s⌝⟩
